@@ -90,7 +90,7 @@ func ptrTo[T any](v T) *T { return &v }
 // rejected as bad requests.
 //
 //gosym:harness
-//gosym:cover refused allowed other-version non-delete
+//gosym:cover refused allowed other-version non-delete earlier-attempt-other-policy
 func HarnessC19Webhook() {
 	s, h := zzSetupStore()
 
@@ -105,6 +105,11 @@ func HarnessC19Webhook() {
 	u.SetAPIVersion(obj.apiVersion())
 	u.SetKind(obj.kind)
 	u.SetName(obj.name)
+	// an earlier delete may have been refused and recorded already
+	earlier := []string{"", "Background", "Foreground", "Orphan"}[zz.Choose("earlier.attempt", 4)]
+	if earlier != "" {
+		u.SetAnnotations(map[string]string{usage.AnnotationKeyDeletionAttempt: earlier})
+	}
 	s.Put(u)
 
 	// Usages over arbitrary resources
@@ -162,6 +167,9 @@ func HarnessC19Webhook() {
 		md, _ := doc["metadata"].(map[string]any)
 		ann, _ := md["annotations"].(map[string]any)
 		zz.Assert("deletion-attempt-recorded-on-the-resource", ann[usage.AnnotationKeyDeletionAttempt] == any(policy))
+		if earlier != "" && earlier != policy {
+			zz.Cover("earlier-attempt-other-policy")
+		}
 	} else {
 		zz.Cover("allowed")
 		// every delete of a used resource is refused, whichever API version
